@@ -53,9 +53,45 @@ def gen_tasks(tier, seed):
                                   "kwargs": {"k": k, "weight_type": "int", "subpath_constraints": cs, "subpath_constraints_coverage": cov, "optimization_options": {"optimize_with_greedy": False}}})
                     tasks.append({**base, "kind": "fd", "cls": "kFlowDecomp", "edges": I.with_flow(es, fl), "constraints": cs, "coverage": cov, "greedy": True,
                                   "kwargs": {"k": k + 1, "weight_type": "int", "subpath_constraints": cs, "subpath_constraints_coverage": cov}})
+            # edge lengths present (length_attr) but the coverage is the plain edge fraction: lengths must play no role --
+            # also in the greedy shortcut's own constraint test (one long edge inside the constraint)
+            if fl and len(cs) == 1 and len(cs[0]) >= 2:
+                for pos in range(len(cs[0])):
+                    long_e = tuple(cs[0][pos])
+                    fl_len = [(u, v, fl[(u, v)], 5 if (u, v) == long_e else 1) for (u, v) in es]
+                    tasks.append({**base, "kind": "fd", "cls": "kFlowDecomp", "edges": fl_len, "constraints": cs, "coverage": 1.0, "greedy": True,
+                                  "kwargs": {"k": k + 1, "weight_type": "int", "subpath_constraints": cs, "subpath_constraints_coverage": 1.0, "length_attr": "length"}})
             # length coverage
             tasks.append({**base, "kind": "lae", "cls": "kLeastAbsErrors", "edges": arb_len, "constraints": cs, "cov_len": 0.6,
                           "kwargs": {"k": k, "weight_type": "int", "subpath_constraints": cs, "subpath_constraints_coverage_length": 0.6, "length_attr": "length"}})
+        # length coverage together with safety used as constraints (explicit option, or implied by given weights): every 3-edge
+        # constraint in turn, the first edge long (so that bridges towards the source/sink are long compared with the rest)
+        for c3 in [c for c in sps if len(c) == 3][: (3 if tier == "quick" else 10)]:
+            cs3 = [[list(e) for e in c3]]
+            lens3 = [(u, v, arbw[(u, v)], 1 if (u, v) in [tuple(e) for e in c3] else 4) for (u, v) in es]
+            for kind, cls in (("lae", "kLeastAbsErrors"), ("mpe", "kMinPathError")):
+                tasks.append({**base, "kind": kind, "cls": cls, "edges": lens3, "constraints": cs3, "cov_len": 0.4,
+                              "kwargs": {"k": k, "weight_type": "int", "subpath_constraints": cs3, "subpath_constraints_coverage_length": 0.4, "length_attr": "length",
+                                         "optimization_options": {"optimize_with_safety_as_subpath_constraints": True}}})
+                tasks.append({**base, "kind": kind, "cls": cls, "edges": lens3, "constraints": cs3, "cov_len": 0.4, "allow_empty": True, "superset": [1, 2, 3],
+                              "kwargs": {"k": k, "weight_type": "int", "subpath_constraints": cs3, "subpath_constraints_coverage_length": 0.4, "length_attr": "length",
+                                         "solution_weights_superset": [1, 2, 3]}})
+        # ... and the structured variant: the constraint's last edge and everything behind it carries no flow and is long,
+        # its first edge alone reaches the length fraction; k = 1
+        for c2 in [c for c in sps if len(c) == 2][: (4 if tier == "quick" else 12)]:
+            (a_, b_), (_b, c_) = c2
+            behind = {c_} | nx.descendants(G, c_)
+            if b_ in behind:
+                continue
+            fl2 = [(u, v, 0 if (u in behind or (u, v) == (b_, c_)) else 5, 1 if (u, v) in c2 else 10) for (u, v) in es]
+            cs2 = [[list(e) for e in c2]]
+            for kind, cls in (("lae", "kLeastAbsErrors"), ("mpe", "kMinPathError")):
+                for extra in ({"optimization_options": {"optimize_with_safety_as_subpath_constraints": True}}, {"solution_weights_superset": [5]}):
+                    t_ = {**base, "kind": kind, "cls": cls, "edges": fl2, "constraints": cs2, "cov_len": 0.5,
+                          "kwargs": {"k": 1, "weight_type": "int", "subpath_constraints": cs2, "subpath_constraints_coverage_length": 0.5, "length_attr": "length", **extra}}
+                    if "solution_weights_superset" in extra:
+                        t_.update({"allow_empty": True, "superset": [5]})
+                    tasks.append(t_)
         # frame: additional starts/ends enlarge the admissible routes by exactly those starting/ending there
         if inner:
             v, w = rng.choice(inner), rng.choice(inner)
